@@ -36,3 +36,50 @@ macro_rules! vk_assert {
     };
 }
 pub(crate) use vk_assert;
+
+// ------------------------------------------------------------------ crate::Counter (byte accounting used for frame sizes and seek offsets)
+// contract: the count advances by exactly the number of bytes the inner stream accepted / delivered
+// (not by the size of the caller's buffer), and errors leave it unchanged
+pub(crate) struct Shorty {
+    pub accept: usize,
+    pub fail: bool,
+}
+impl std::io::Write for Shorty {
+    fn write(&mut self, buf: &[u8]) -> std::io::Result<usize> {
+        if self.fail { return Err(std::io::Error::from(std::io::ErrorKind::Other)); }
+        Ok(if buf.len() < self.accept { buf.len() } else { self.accept })
+    }
+    fn flush(&mut self) -> std::io::Result<()> { Ok(()) }
+}
+impl std::io::Read for Shorty {
+    fn read(&mut self, buf: &mut [u8]) -> std::io::Result<usize> {
+        if self.fail { return Err(std::io::Error::from(std::io::ErrorKind::Other)); }
+        Ok(if buf.len() < self.accept { buf.len() } else { self.accept })
+    }
+}
+
+#[kani::proof]
+pub(crate) fn k_counter_counts_accepted_bytes() {
+    use std::io::{Read, Write};
+    let accept: usize = kani::any();
+    kani::assume(accept <= 8);
+    let fail: bool = kani::any();
+    let start: u64 = kani::any();
+    kani::assume(start < (1 << 60));
+    let mut c = crate::Counter::new(Shorty { accept, fail });
+    c.count = start;
+    let buf = [0u8; 5];
+    let n: usize = kani::any();
+    kani::assume(n <= 5);
+    match c.write(&buf[..n]) {
+        Ok(k) => kani::assert(!fail && k == n.min(accept) && c.count == start + k as u64, "VK: Counter::write counts exactly the bytes the inner writer accepted"),
+        Err(_) => kani::assert(fail && c.count == start, "VK: Counter::write error leaves the count unchanged"),
+    }
+    let mut c = crate::Counter::new(Shorty { accept, fail });
+    c.count = start;
+    let mut rbuf = [0u8; 5];
+    match c.read(&mut rbuf[..n]) {
+        Ok(k) => kani::assert(!fail && k == n.min(accept) && c.count == start + k as u64, "VK: Counter::read counts exactly the bytes delivered"),
+        Err(_) => kani::assert(fail && c.count == start, "VK: Counter::read error leaves the count unchanged"),
+    }
+}
